@@ -154,11 +154,12 @@ class BuiltinConverterProvider(ConverterProvider):
         return self._name_sanitizer.sanitize(f"convert_{src}_to_{dst}")
 
     def _get_file_name(self, request: ConverterRequest) -> str:
+        # `compile` refuses file name containing null character
         if request.function_name is not None:
-            return request.function_name
+            return request.function_name.replace("\0", "")
         stub_function_name = getattr(request.stub_function, "__name__", None)
         if stub_function_name is not None:
-            return stub_function_name
+            return stub_function_name.replace("\0", "")
         src = next(iter(request.signature.parameters.values()))
         dst = self._get_type_from_annotation(request.signature.return_annotation)
         return self._name_sanitizer.sanitize(f"convert_{src}_to_{dst}")
